@@ -50,6 +50,17 @@ impl Filter {
     }
 
     fn filter_item<'a, T: Queryable>(&self, item: Pointer<'a, T>, root: &T) -> bool {
+        #[cfg(feature = "verif-hooks")]
+        if crate::verif::armed() {
+            let addr = crate::verif::addr(item.inner);
+            let verdict = crate::verif::reenter(|| self.filter_item(item, root));
+            crate::verif::emit(crate::verif::Event::FilterItem {
+                text: format!("{:?}", self),
+                item: addr,
+                verdict,
+            });
+            return verdict;
+        }
         self.process_elem(State::data(root, Data::Ref(item.clone())))
             .ok_val()
             .and_then(|v| v.as_bool())
